@@ -1502,7 +1502,18 @@ class SuccessionDiagram:
         assert self.dag.edges[parent_id, node_id] is not None
         parent_depth = cast(int, self.dag.nodes[parent_id]["depth"])
         current_depth = cast(int, self.dag.nodes[node_id]["depth"])
-        self.dag.nodes[node_id]["depth"] = max(current_depth, parent_depth + 1)
+        if parent_depth + 1 <= current_depth:
+            return
+        self.dag.nodes[node_id]["depth"] = parent_depth + 1
+        # A longer path to `node_id` is also a longer path to everything below it.
+        pending = [node_id]
+        while len(pending) > 0:
+            x = pending.pop()
+            x_depth = cast(int, self.dag.nodes[x]["depth"])
+            for y in cast(list[int], list(self.dag.successors(x))):  # type: ignore
+                if cast(int, self.dag.nodes[y]["depth"]) < x_depth + 1:
+                    self.dag.nodes[y]["depth"] = x_depth + 1
+                    pending.append(y)
 
     def _expand_one_node(self, node_id: int):
         """
